@@ -3145,9 +3145,10 @@ Vgetvgroups(int32    id,       /* IN: file id or vgroup id */
                 /* If this vgroup is internally created by the lib, then just
                    skip it; otherwise, record its ref# according to caller's
                    specification of where to start and how many to retrieve */
-                if (subvg->vgclass != NULL) {
+                /* (a vgroup without a class is a user-created one, as in the file case above) */
+                {
                     /* Make sure this vgroup is not an internal one */
-                    if (Visinternal(subvg->vgclass) == FALSE) {
+                    if (subvg->vgclass == NULL || Visinternal(subvg->vgclass) == FALSE) {
                         /* Make sure to count only from vg number start_vg */
                         if (user_vgs >= start_vg)
                             /* If caller requests for reference numbers */
